@@ -176,6 +176,11 @@ func render(v ssa.Value, d int) string {
 			if sv := singleStore(v.X, v); sv != nil {
 				return render(sv, d+1)
 			}
+			if al, ok := v.X.(*ssa.Alloc); ok {
+				if lit := structLit(al, v, d); lit != "" {
+					return lit
+				}
+			}
 			return deref(render(v.X, d+1))
 		case token.NOT:
 			return "!" + render(v.X, d+1)
@@ -235,6 +240,11 @@ func render(v ssa.Value, d int) string {
 	case *ssa.TypeAssert:
 		return render(v.X, d+1) + ".(" + typeShort(v.AssertedType) + ")"
 	case *ssa.Slice:
+		if al, ok := v.X.(*ssa.Alloc); ok && al.Comment == "varargs" && v.Low == nil && v.High == nil {
+			if es := arrayElems(al, d); es != nil {
+				return "[" + strings.Join(es, ",") + "]"
+			}
+		}
 		s := render(v.X, d+1)
 		if _, isPtr := v.X.Type().Underlying().(*types.Pointer); isPtr {
 			s = deref(s)
@@ -398,4 +408,107 @@ func allocSingleStore(al *ssa.Alloc) *ssa.Store {
 	}
 	singleStoreCache[al] = st
 	return st
+}
+
+// arrayElems renders the elements stored into a local array (variadic
+// argument packs): stores through IndexAddr with constant index.
+func arrayElems(al *ssa.Alloc, d int) []string {
+	refs := al.Referrers()
+	if refs == nil {
+		return nil
+	}
+	m := map[int64]string{}
+	max := int64(-1)
+	for _, r := range *refs {
+		ia, ok := r.(*ssa.IndexAddr)
+		if !ok {
+			continue
+		}
+		c, ok := ia.Index.(*ssa.Const)
+		if !ok || c.Value == nil {
+			return nil
+		}
+		idx := c.Int64()
+		irefs := ia.Referrers()
+		if irefs == nil {
+			continue
+		}
+		for _, rr := range *irefs {
+			if st, ok := rr.(*ssa.Store); ok && st.Addr == ia {
+				m[idx] = render(st.Val, d+1)
+				if idx > max {
+					max = idx
+				}
+			}
+		}
+	}
+	if max < 0 {
+		return nil
+	}
+	out := make([]string, max+1)
+	for i := range out {
+		out[i] = m[int64(i)]
+	}
+	return out
+}
+
+// structLit renders a local struct built field by field (composite literal
+// or var + field assignments, each field assigned once before the use) as
+// T{f:v,...}.
+func structLit(al *ssa.Alloc, use ssa.Instruction, d int) string {
+	pt, ok := al.Type().Underlying().(*types.Pointer)
+	if !ok {
+		return ""
+	}
+	st, ok := pt.Elem().Underlying().(*types.Struct)
+	if !ok {
+		return ""
+	}
+	refs := al.Referrers()
+	if refs == nil {
+		return ""
+	}
+	vals := map[int]string{}
+	for _, r := range *refs {
+		switch x := r.(type) {
+		case *ssa.FieldAddr:
+			frefs := x.Referrers()
+			if frefs == nil {
+				continue
+			}
+			for _, rr := range *frefs {
+				switch y := rr.(type) {
+				case *ssa.Store:
+					if y.Addr != x {
+						return ""
+					}
+					if _, dup := vals[x.Field]; dup {
+						return ""
+					}
+					if use != nil && y.Parent() == use.Parent() && !Precedes(y, use) {
+						return ""
+					}
+					vals[x.Field] = render(y.Val, d+2)
+				case *ssa.UnOp, *ssa.DebugRef, *ssa.FieldAddr:
+				default:
+					return ""
+				}
+			}
+		case *ssa.UnOp, *ssa.DebugRef:
+		case *ssa.Store:
+			return ""
+		default:
+			return ""
+		}
+	}
+	if len(vals) == 0 {
+		return ""
+	}
+	var parts []string
+	for i := 0; i < st.NumFields(); i++ {
+		if v, ok := vals[i]; ok {
+			parts = append(parts, st.Field(i).Name()+":"+v)
+		}
+	}
+	return typeShortNoPtr(al.Type()) + "{" + strings.Join(parts, ",") + "}"
 }
